@@ -22,6 +22,11 @@ func init() {
 			{"C04.funnel", "all index stores decode through IndexFromReader and encode through Index.WriteTo; files are truncated", 12, c04Funnel},
 			{"C04.codec-agree", "index header/table written and read as the same field sequence; sizes and tail marker agree", 6, c04Codec},
 			{"C04.rejections", "IndexFromReader rejects a wrong digest flag and any chunk larger than the maximum", 3, c04Rejections},
+			{"C04.max-size-boundary", "a chunk is rejected iff its size exceeds the declared maximum (partition point of the comparison)", 1, func(c *Ctx) {
+				if fn := c.mustFn("IndexFromReader"); fn != nil {
+					c.boundaryRule("IndexFromReader", withClosures(fn), []boundarySpec{{"max-size", map[string]int{"FormatIndex.ChunkSizeMax": 1, "[i]IndexChunk.Size": -1}, -1, 1, "reject iff Size > ChunkSizeMax; a chunk of exactly the maximum is legal"}})
+				}
+			}},
 			{"C04.offsets", "start/size <-> cumulative offsets are inverse linear maps", 4, c04Offsets},
 			{"C04.upload-body-fresh", "an index upload that is retried sends the whole index again", 1, func(c *Ctx) {
 				retryBodyFresh(c, func(k string) bool { return strings.Contains(k, "Index") })
